@@ -51,7 +51,8 @@ theorem saveSeq_seqOk {s sq : State} {a : Bool} {b : Block} (h : saveSeq s a b =
 /-- connecting an index block that sits directly on the tip. -/
 theorem connectBlock_inv {s : State} (hi : Inv s) {b t : Block} {r : List Block} (hb : b ∈ s.index)
     (hbest : s.best = t :: r) (hp : b.parent = t.id) (hh : b.height = t.height + 1) :
-    ∃ s', connectBlock s b = .ok s' ∧ Inv s' ∧ s'.best = b :: s.best ∧ SameRest s s' := by
+    ∃ s', connectBlock s b = .ok s' ∧ Inv s' ∧ s'.best = b :: s.best ∧ SameRest s s' ∧
+      s'.txIdx = addTxs s.txIdx b := by
   have htin : t ∈ s.index := hi.bestIn t (by rw [hbest]; simp)
   obtain ⟨tp, htp, hbtd⟩ := hi.tdRec b hb t htin hp.symm hh
   obtain ⟨sq, hsq⟩ := saveSeq_succeeds s true b (by
@@ -59,10 +60,10 @@ theorem connectBlock_inv {s : State} (hi : Inv s) {b t : Block} {r : List Block}
     · right; rfl
     · left; exact hi.seqOk hr)
   have hf := saveSeq_frame hsq
-  have hc : connectBlock s b = .ok { sq with stored := upd sq.stored b.id (some b), h2h := upd sq.h2h b.height (some b.id), last := b.height, tds := upd sq.tds b.id (some (b.diff + tp)), best := b :: sq.best } := by
+  have hc : connectBlock s b = .ok { sq with stored := upd sq.stored b.id (some b), h2h := upd sq.h2h b.height (some b.id), last := b.height, tds := upd sq.tds b.id (some (b.diff + tp)), best := b :: sq.best, txIdx := addTxs sq.txIdx b } := by
     simp only [connectBlock, hbest, hp, hsq, ne_eq, not_true_eq_false, if_false]
     rw [hf.2.2.2.2.2.2.2.1, ← hp, show s.tds b.parent = some tp from by rw [hp]; exact htp]
-  refine ⟨_, hc, ?_, by simp [hf.2.2.2.2.2.1], ?_⟩
+  refine ⟨_, hc, ?_, by simp [hf.2.2.2.2.2.1], ?_, by simp [hf.2.2.2.2.2.2.2.2.2.2]⟩
   · have e1 : upd sq.tds b.id (some (b.diff + tp)) = s.tds := by
       rw [hf.2.2.2.2.2.2.2.1]; exact upd_self _ _ _ hbtd
     have e2 : upd sq.stored b.id (some b) = s.stored := by
@@ -105,16 +106,18 @@ theorem connectBlock_inv {s : State} (hi : Inv s) {b t : Block} {r : List Block}
 /-- disconnecting the tip when it is not the bottom block. -/
 theorem disconnectBlock_inv {s : State} (hi : Inv s) {t p : Block} {r : List Block}
     (hbest : s.best = t :: p :: r) :
-    ∃ s', disconnectBlock s t = .ok s' ∧ Inv s' ∧ s'.best = p :: r ∧ SameRest s s' := by
+    ∃ s', disconnectBlock s t = .ok s' ∧ Inv s' ∧ s'.best = p :: r ∧ SameRest s s' ∧
+      s'.txIdx = delTxs s.txIdx t := by
   obtain ⟨sq, hsq⟩ := saveSeq_succeeds s false t (by
     cases hr : s.recSeq
     · right; rfl
     · left; exact hi.seqOk hr)
   have hf := saveSeq_frame hsq
   have hl : Linked (t :: p :: r) := by rw [← hbest]; exact hi.linked
-  have hc : disconnectBlock s t = .ok { sq with h2h := upd sq.h2h t.height none, last := (t.height : Int) - 1, best := p :: r } := by
+  have hc : disconnectBlock s t = .ok { sq with h2h := upd sq.h2h t.height none, last := (t.height : Int) - 1, best := p :: r, txIdx := delTxs sq.txIdx t } := by
     simp only [disconnectBlock, hbest, hsq, ne_eq, not_true_eq_false, if_false]
-  refine ⟨_, hc, ?_, rfl, ⟨hf.2.2.2.1, hf.2.2.2.2.1, hf.2.2.2.2.2.2.2.1, hf.2.2.2.2.2.2.1, hf.1, hf.2.1, hf.2.2.1⟩⟩
+  refine ⟨_, hc, ?_, rfl, ⟨hf.2.2.2.1, hf.2.2.2.2.1, hf.2.2.2.2.2.2.2.1, hf.2.2.2.2.2.2.1, hf.1, hf.2.1, hf.2.2.1⟩,
+    by simp [hf.2.2.2.2.2.2.2.2.2.2]⟩
   constructor
   · simpa [hf.2.2.2.1] using hi.uniq
   · simpa [hf.2.2.2.1] using hi.closed
@@ -151,25 +154,27 @@ theorem disconnectBlock_inv {s : State} (hi : Inv s) {t p : Block} {r : List Blo
 /-- disconnecting a proper prefix of the best chain, tip first. -/
 theorem runSteps_disconnect_inv : ∀ (pre : List Block) {s : State} (_ : Inv s) {f : Block} {r : List Block}
     (_ : s.best = pre ++ f :: r),
-    ∃ s', runSteps disconnectBlock s pre = (s', none) ∧ Inv s' ∧ s'.best = f :: r ∧ SameRest s s' := by
+    ∃ s', runSteps disconnectBlock s pre = (s', none) ∧ Inv s' ∧ s'.best = f :: r ∧ SameRest s s' ∧
+      s'.txIdx = pre.foldl delTxs s.txIdx := by
   intro pre
   induction pre with
-  | nil => intro s hi f r hb; exact ⟨s, rfl, hi, by simpa using hb, SameRest.refl s⟩
+  | nil => intro s hi f r hb; exact ⟨s, rfl, hi, by simpa using hb, SameRest.refl s, rfl⟩
   | cons t pre ih =>
     intro s hi f r hb
     obtain ⟨p, r', hb2⟩ := List.exists_cons_of_ne_nil (l := pre ++ f :: r) (by simp)
     have hb1 : s.best = t :: p :: r' := by rw [hb, ← hb2]; simp
-    obtain ⟨s1, hd, hi1, hbest1, hsr1⟩ := disconnectBlock_inv hi hb1
-    obtain ⟨s2, hrun, hi2, hbest2, hsr2⟩ := ih hi1 (f := f) (r := r) (by rw [hbest1, ← hb2])
-    exact ⟨s2, by simp only [runSteps, hd, hrun], hi2, hbest2, hsr1.trans hsr2⟩
+    obtain ⟨s1, hd, hi1, hbest1, hsr1, htx1⟩ := disconnectBlock_inv hi hb1
+    obtain ⟨s2, hrun, hi2, hbest2, hsr2, htx2⟩ := ih hi1 (f := f) (r := r) (by rw [hbest1, ← hb2])
+    exact ⟨s2, by simp only [runSteps, hd, hrun], hi2, hbest2, hsr1.trans hsr2, by rw [htx2, htx1]; rfl⟩
 
 /-- connecting a linked run of index blocks above the tip, bottom first. -/
 theorem runSteps_connect_inv : ∀ (att : List Block) {s : State} (_ : Inv s)
     (_ : ∀ y ∈ att, y ∈ s.index) (_ : Linked (att.reverse ++ s.best)),
-    ∃ s', runSteps connectBlock s att = (s', none) ∧ Inv s' ∧ s'.best = att.reverse ++ s.best ∧ SameRest s s' := by
+    ∃ s', runSteps connectBlock s att = (s', none) ∧ Inv s' ∧ s'.best = att.reverse ++ s.best ∧ SameRest s s' ∧
+      s'.txIdx = att.foldl addTxs s.txIdx := by
   intro att
   induction att with
-  | nil => intro s hi _ _; exact ⟨s, rfl, hi, by simp, SameRest.refl s⟩
+  | nil => intro s hi _ _; exact ⟨s, rfl, hi, by simp, SameRest.refl s, rfl⟩
   | cons x att ih =>
     intro s hi hin hl
     have hne := hi.linked.ne_nil
@@ -179,10 +184,11 @@ theorem runSteps_connect_inv : ∀ (att : List Block) {s : State} (_ : Inv s)
       rw [this] at hl
       exact Linked.suffix _ hl
     rw [hbest] at hl'
-    obtain ⟨s1, hc, hi1, hbest1, hsr1⟩ := connectBlock_inv hi (hin x (by simp)) hbest hl'.1 hl'.2.1
-    obtain ⟨s2, hrun, hi2, hbest2, hsr2⟩ := ih hi1
+    obtain ⟨s1, hc, hi1, hbest1, hsr1, htx1⟩ := connectBlock_inv hi (hin x (by simp)) hbest hl'.1 hl'.2.1
+    obtain ⟨s2, hrun, hi2, hbest2, hsr2, htx2⟩ := ih hi1
       (fun y hy => by rw [hsr1.1]; exact hin y (List.mem_cons_of_mem _ hy))
       (by rw [hbest1]; simpa using hl)
-    exact ⟨s2, by simp only [runSteps, hc, hrun], hi2, by rw [hbest2, hbest1]; simp, hsr1.trans hsr2⟩
+    exact ⟨s2, by simp only [runSteps, hc, hrun], hi2, by rw [hbest2, hbest1]; simp, hsr1.trans hsr2,
+      by rw [htx2, htx1]; rfl⟩
 
 end C25
